@@ -88,7 +88,11 @@ Docs == <<
                             <<K(<<99>>)>>,
                             <<>>,
                             <<W(<<32>>)>>,
-                            <<EOF>> >>]
+                            <<EOF>> >>],
+    \* 18-20  parseFragment("<p>a<table>b</table>c", container=None / "" / 5)      arguments outside the domain: rejected
+    [bytes |-> FALSE, frag |-> "#None", reads |-> <<>>],
+    [bytes |-> FALSE, frag |-> "#empty", reads |-> <<>>],
+    [bytes |-> FALSE, frag |-> "#int", reads |-> <<>>]
 >>
 
 NReads(d) == Len(Docs[d].reads)
